@@ -1,8 +1,6 @@
 (* C11 - the wallet birthday is never later than creation and accurate to one month.
    reported t = what polyseed_get_birthday returns for a seed created at clock value t. *)
 From PS Require Import Base MiscDefs SpecDefs MiscProofs ApiDefs ApiTheorems.
-From PS Require Import CTieBase CTieBday.
-From PS.Gen Require CFuns.
 From PS.Gen Require Import Consts Langs.
 Local Open Scope N_scope.
 
